@@ -322,7 +322,18 @@ def is_persistent(op):
 _REF = {}
 
 
+def _ensure_default_vm():
+    """the process-global registry entry every world is compared with (must be known before the first observation,
+    also in a worker whose first work item asks for a reference)"""
+    import tf_pwa.variable  # registers "vm" and "polar"
+    from tf_pwa.config import get_config
+
+    if _DEFAULT_VM[0] is None:
+        _DEFAULT_VM[0] = get_config("vm")
+
+
 def reference(variant, hist):
+    _ensure_default_vm()
     key = (variant["name"], tuple(o for o in hist if is_persistent(o)))
     if key not in _REF:
         w = World(variant)
